@@ -1424,10 +1424,12 @@ def c14_run(ctx, scale):
         if end == len(b):
             add("interrupted-at-end", ",".join(["d1"] * len(b) + ["i"]), "same")
             add("wouldblock-at-end", ",".join(["d1"] * len(b) + ["f8"]), "same")
-        # every kind at one fixed offset inside the data
+        # every kind at one fixed offset inside the data, as an error with a payload that has its own
+        # cause (f) and as a bare kind (F)
         for code in kinds:
             k = min(end - 1, 130 + code)
             add(f"kind{code}@{k}", ",".join(["d1"] * k + [f"f{code}"]), f"io:{'UnexpectedEof' if code == 0 else code}")
+            add(f"plainkind{code}@{k}", ",".join(["d1"] * k + [f"F{code}"]), f"io:{'UnexpectedEof' if code == 0 else code}")
     m, _ = vlib.run_model(reqs)
     i, _ = vlib.run_impl(reqs)
     res.sections = ALL
@@ -1467,10 +1469,42 @@ def c14_run(ctx, scale):
             res.samples.append({"id": rid[:80], "outcome": il[0] if il else None})
     res.distribution["files"] = len(base)
     res.distribution["schedules"] = len(reqs)
+    # a load that FAILED with a hard error part-way through a large chunk payload must leave nothing
+    # behind: the same thread then loads a file (the same one, and another one) and must observe it
+    # like a fresh thread does
+    big = mk_header(1, 8, 8) + mk_frame([mk_layer(), mk_chunk(0x2005, struct.pack("<HhhBH", 0, -3, -2, 255, 0) + bytes(7)
+                                        + struct.pack("<HH", 520, 520) + bytes((i * 7 + (i >> 9)) % 256 for i in range(520 * 520 * 4)))])
+    mid = mk_header(1, 8, 8) + mk_frame([mk_layer(), mk_chunk(0x2005, struct.pack("<HhhBH", 0, 1, 1, 255, 0) + bytes(7)
+                                        + struct.pack("<HH", 150, 130) + bytes((i * 11) % 256 for i in range(150 * 130 * 4)))])
+    hreqs, hmeta = [], {}
+    for an, a in (("big", big), ("mid", mid)):
+        for off in (200, 5000, 70000, 300000, 1048700, len(a) - 10):
+            if off >= len(a):
+                continue
+            for bn, b in (("big", big), ("mid", mid)):
+                hid = f"failhist/{an}@{off}->{bn}"
+                hreqs.append(f"HISTORY {hid} {a.hex()} {b.hex()} fail:{off}")
+                hmeta[hid] = (a, b)
+    mh, _ = vlib.run_model(vlib.load_lines([("big", big), ("mid", mid)]))
+    for profile in ("release", "relchk"):
+        ho, _ = vlib.run_impl(hreqs, profile)
+        for hid, (a, b) in hmeta.items():
+            res.evaluations += 1
+            res.compared += 1
+            o = ho.get(hid) or ["missing"]
+            want = mh["big"] if hid.endswith("->big") else mh["mid"]
+            plain = [l for l in o if not l.startswith("mapperx")]
+            bad = [l for l in o if l.startswith("differs") or "PANIC" in l or "failed-or-panicked" in l]
+            if bad or plain != want:
+                res.oracle_failures.append({"id": hid, "build_profile": profile, "input_hex": b.hex()[:200000],
+                                            "call": f"HISTORY (first load through a reader failing after N bytes): {hid}",
+                                            "what": "after a load that failed with an I/O error, a later load on the same thread is observed differently: "
+                                                    + (bad[0][:300] if bad else str(vlib.first_diff(want, plain))[:300])})
+    res.distribution["failed-load histories"] = len(hreqs)
     return res
 
 
-register("C14", c14_run)
+register("C14", c14_run, profiles=("release", "relchk"))
 
 
 # ------------------------------------------------------------------------------------------
